@@ -7,9 +7,10 @@ import pipeline_engine as PE
 
 
 def gen_case(rnd):
-    cfg = GP.gen_config(rnd, safe=True)
+    big = rnd.random() < 0.02                       # a few large cases: many rules, a long stream, many distinct series
+    cfg = GP.gen_config(rnd, safe=True, maxrules=(40 if big else 6))
     ops = [GM.load_op(cfg)]
-    for _ in range(rnd.randint(5, 40)):
+    for _ in range(rnd.randint(300, 600) if big else rnd.randint(5, 40)):
         ops.append(PE.I(GP.gen_line(rnd, cfg, safe=True, odd_p=0.05)))
         if rnd.random() < 0.08:
             ops.append("G")
@@ -38,6 +39,10 @@ def monitor(rep, case, impl, model, payload):
 
 
 def run(rep, tier, seed, replay):
+    if replay and E2E.replay_case(rep, "C01", replay):
+        rep.cov.setdefault("trusted_base", ["end-to-end replay of one case against the built binary"])
+        rep.cov.setdefault("rule", "replay of one end-to-end case")
+        return
     if not replay:
         # the real binary over its sockets against the same model (main.go's wiring)
         E2E.run(rep, "C01", tier, seed, n_quick=60, n_thorough=3000)
